@@ -67,6 +67,12 @@ def generate(rng, tier):
         for _ in range(2):
             a, ak = gen_assumptions(rng, d)
             out.append({"fn": "solve", "circuit": d, "assume": a, "akind": ak, "tags": tags})
+    # families of parity gates over a small shared pool (operand pairs recur); impl() adds order-reversed pairs (reversal_followups)
+    for i in range(12 if quick else 120):
+        d, tags = U.parity_family(rng)
+        out.append({"fn": "cnf", "circuit": d, "tags": tags})
+        a, ak = gen_assumptions(rng, d)
+        out.append({"fn": "solve", "circuit": d, "assume": a, "akind": ak, "tags": tags})
     for i in range(n // 6):
         d, tags = U.gen_outside(rng)
         out.append({"fn": "cnf", "circuit": d, "tags": tags})
@@ -103,11 +109,15 @@ def observe(cg, d, case, follow):
                 obs["ret_other"] = repr(r)[:200]
     except Exception as e:
         obs["exc"] = type(e).__name__
+    fs = []
     if follow and variables is not None:
         # adaptive alias probing: string keys of the IDPool that are not nodes become node names of follow-up circuits
-        fs = [[e, observe(cg, e, case, False)] for e in U.alias_followups(d, variables)]
-        if fs:
-            obs["followups"] = fs
+        fs += [[e, observe(cg, e, case, False)] for e in U.alias_followups(d, variables)]
+    if follow and "pfamily" in case.get("tags", []):
+        # order-reversal probing: two parity gates that chain a shared operand pair in opposite order under this hash seed
+        fs += [[e, observe(cg, e, case, False)] for e in U.reversal_followups(d)]
+    if fs:
+        obs["followups"] = fs
     return obs
 
 
@@ -149,7 +159,7 @@ def classify(case, obs):
         return ["skip"]
     tags = [case["fn"]] + ["kind:" + t for t in case.get("tags", [])]
     if obs.get("followups"):
-        tags.append("alias-followups")
+        tags.append("followups:%d" % len(obs["followups"]))
     if case["fn"] == "cnf":
         tags += U.describe(case["circuit"])
         if "cnf" in obs:
@@ -180,7 +190,7 @@ def mutate_case(rng, case):
         return {"fn": "skip"}
     _MUTATE_BUDGET[0] -= 1
     kind = (case.get("tags") or ["dag"])[0]
-    d, tags = U.gen_circuit(rng, kind=kind if kind in ("dag", "parity", "bb", "bb_unconn", "cyclic", "stress", "const") else None)
+    d, tags = U.gen_circuit(rng, kind=kind if kind in ("dag", "parity", "bb", "bb_unconn", "cyclic", "stress", "const", "pfamily") else None)
     if case["fn"] == "cnf":
         return {"fn": "cnf", "circuit": d, "tags": tags}
     a, ak = gen_assumptions(rng, d)
